@@ -259,8 +259,9 @@ PLANS["C01"] = dict(
     floors=TL_FLOORS,
     assumptions=["keyframes as the builder hands them over: sorted (C11), positions in [0,1]; exact arithmetic — the binary32 evaluation of the same model term is what is compared with the code"],
 )
+# `big`: timelines of 255…70 001 keyframes (index widths), see gen_big
 PLANS["C02"] = dict(
-    suites=[Suite("tl", 600, 50000), Suite("pos", 500, 20000)],
+    suites=[Suite("tl", 600, 50000), Suite("pos", 500, 20000), Suite("big", 3, 16, chunks_thorough=8)],
     floors=TL_FLOORS,
     assumptions=["easings that fix 0 and 1 (all built-ins, C13); values whose lerp is exact at 0 and 1 (floats; integers of one kind within its range, C14)"],
 )
@@ -597,7 +598,7 @@ def extra_c20(prop, tier, seed, profiles):
 
 
 PLANS["C20"] = dict(
-    suites=[Suite("ext", 800, 40000), Suite("pos", 800, 30000), Suite("tl", 150, 8000), Suite("anim", 150, 8000), Suite("merged", 60, 3000), Suite("lerp", 1500, 50000)],
+    suites=[Suite("ext", 800, 40000), Suite("pos", 800, 30000), Suite("tl", 150, 8000), Suite("anim", 150, 8000), Suite("merged", 60, 3000), Suite("lerp", 1500, 50000), Suite("big", 3, 16, chunks_thorough=8)],
     floors={"quick": {"ext-pos-values": 20000, "ext-upd-values": 2000, "op:pos": 700}},
     extra=extra_c20,
     recognisers={"c20b_overshoot": rec_c20b_overshoot},
